@@ -152,5 +152,4 @@ def replay(ctx, doc):
         before = len(ctx.violations)
         check_curve(ctx, sy, inp["grid"], inp["mean"], inp)
         return len(ctx.violations) == before
-    print("replay of CLI cases: rerun the check with VERIF_SEED=%s" % doc.get("seed"))
-    return True
+    return None   # re-run the stream with the recorded seed (check.py does it)
